@@ -1,6 +1,6 @@
 SPECIFICATION SpecNums
 CONSTANTS
-  Bug = ""
+  Bug = "RoundHalfDown"
   N0 = 0
   N1 = 0
   N2 = 0
@@ -11,7 +11,7 @@ CONSTANTS
   Rich = FALSE
   TextLen = 0
   Chars = {}
-  IntParts = {0, 16383}
+  IntParts = {0}
   Sample = 1
 INVARIANTS InvScanPrint InvUnitsAsInTeX
 CHECK_DEADLOCK FALSE
